@@ -69,6 +69,15 @@ def scenario(name):
                 inp, db = 'T/archive', 'T/archive.ecc'
                 files.update({'old/archive.ecc': bytes((i * 5 + 1) % 253 for i in range(400)), 'old/archive.ecc.idx': b'index of an older run\n' * 12})
                 write_tree(d + '/' + inp, files)
+            if variant == 'sizememo':
+                # two files whose recorded sizes differ in one digit (700 and 710): the later entry's size field will be damaged into the
+                # digits of the earlier one's
+                files.update({'b2.bin': bytes((i * 5 + 2) % 256 for i in range(710))})
+                write_tree(d + '/' + inp, files)
+            if variant == 'bigheader':
+                # header tool with --size above 65535 on a longer file: the protected region is the first --size bytes, all of them
+                files.update({'big.bin': bytes((i * 131 + i // 7) % 256 for i in range(72000))})
+                write_tree(d + '/' + inp, files)
             if variant == 'sibling':
                 # two files of the same size whose names differ in one bit ('1' = 0x31, '3' = 0x33)
                 files.update({'frames/f1.raw': bytes((i * 3) % 256 for i in range(300)), 'frames/f3.raw': bytes((i * 11 + 7) % 256 for i in range(300))})
@@ -82,13 +91,22 @@ def scenario(name):
                               '50%done.dat': bytes((i * 9 + 2) % 256 for i in range(230))})
                 write_tree(d + '/' + inp, files)
                 gextra = ['--skip_size_below', '100', '--always_include_ext', 'tar.gz|txt']
-            rc, out = pff([cmd, '-i', inp, '-d', db, '-g', '-f', '-l', 'gen.log'] + ECC[tool] + gextra, d)
+            ecc_opts = ['--max_block_size', '255', '-s', '70000', '-r', '0.3'] if variant == 'bigheader' else ECC[tool]
+            if variant == 'smallsize':
+                # a --size below the length of one stage-1 message (159 bytes at these rates): generation and correction must still agree
+                ecc_opts = ['--max_block_size', '255', '-s', '100'] + (['-r', '0.3'] if tool == 'header' else ['-r1', '0.3', '-r2', '0.2', '-r3', '0.1'])
+            rc, out = pff([cmd, '-i', inp, '-d', db, '-g', '-f', '-l', 'gen.log'] + ecc_opts + gextra, d)
             if rc != 0:
                 bad.append({'step': 'generate with -l', 'exit': rc, 'tail': out[-300:]})
             if 'efile' in variant:
                 pff(['hash', '-i', 'in', '-d', 'db.csv', '-g', '-f', '--silent'], d)
             outd = 'in_fixed' if variant == 'prefixout' else 'out'      # prefixout: the output path STARTS WITH the input path (as a string)
-            os.mkdir(d + '/' + outd)
+            if variant == 'symout':
+                # the output folder is reached through a symbolic link (a mounted volume, a link on the desktop)
+                os.mkdir(d + '/real_out')
+                os.symlink('real_out', d + '/' + outd)
+            else:
+                os.mkdir(d + '/' + outd)
             if variant == 'prefill':
                 # the output folder is not empty: an earlier, worse attempt left files of the right size there
                 write_tree(d + '/out', {'a.bin': bytes(len(files['a.bin'])), 'sub/b.txt': b'?' * len(files['sub/b.txt'])})
@@ -101,10 +119,11 @@ def scenario(name):
                     b = bytearray(files[rel])
                     # one wrong byte every 29 bytes of the protected region (header tool: the first 200 bytes; whole tool: the whole
                     # file, so that a subcommand reaching the header tool instead is seen)
-                    for i in range(0, min(len(b), 200) if tool == 'header' else len(b), 29):
+                    hs_ = int(ecc_opts[ecc_opts.index('-s') + 1])
+                    for i in range(0, min(len(b), hs_) if tool == 'header' else len(b), 29):
                         b[i] ^= 0x41
                     open(os.path.join(d, inp, *rel.split('/')), 'wb').write(bytes(b))
-                    want_out[rel] = files[rel] if tool == 'whole' else files[rel][:200] + bytes(b)[200:]
+                    want_out[rel] = files[rel] if tool == 'whole' else files[rel][:hs_] + bytes(b)[hs_:]
             if variant in ('efilepath', 'sibling', 'pathskip'):
                 # damage the PATH FIELD of one entry within the capacity of its intra-ecc (one symbol)
                 victim, repl = (b'sub/b.txt', b'sub/b.tyt') if variant in ('efilepath', 'pathskip') else (b'frames/f1.raw', b'frames/f3.raw')
@@ -114,6 +133,25 @@ def scenario(name):
                     bad.append({'step': 'harness: locate the path field', 'occurrences': data.count(victim)})
                 else:
                     open(d + '/' + db, 'wb').write(data[:i] + repl + data[i + len(victim):])
+            if variant == 'sizememo':
+                data = open(d + '/' + db, 'rb').read()
+                i = data.find(b'b2.bin')
+                j = data.find(b'710', i)
+                if i < 0 or j < 0 or j - i > 20:
+                    bad.append({'step': 'harness: locate the size field of b2.bin'})
+                else:
+                    open(d + '/' + db, 'wb').write(data[:j] + b'700' + data[j + 3:])
+                if name.startswith('C01'):
+                    b = bytearray(files['b2.bin']); b[3] ^= 0x41
+                    open(d + '/in/b2.bin', 'wb').write(bytes(b))
+                    want_out['b2.bin'] = files['b2.bin']
+            if variant == 'bigheader':
+                b = bytearray(files['big.bin'])
+                for i in (5, 67900, 67901, 67902):
+                    b[i] ^= 0x41
+                open(d + '/in/big.bin', 'wb').write(bytes(b))
+                want_out = {k: (v if k != 'a.bin' else v) for k, v in want_out.items()}
+                want_out['big.bin'] = files['big.bin'][:70000] + bytes(b)[70000:]
             if variant == 'sibling' and name.startswith('C01'):
                 b = bytearray(files['frames/f1.raw'])
                 for i in range(0, 200 if tool == 'header' else len(b), 29):
@@ -145,11 +183,12 @@ def scenario(name):
                 if i < 0:
                     bad.append({'step': 'harness: locate the stored hash of block 0'})
                 else:
-                    open(d + '/' + db, 'wb').write(data[:i] + (b'0' if data[i:i + 1] != b'0' else b'1') + data[i + 1:])
+                    n_ = 1 if tool == 'header' else 20      # one character (header run) / most of the 32 characters (whole run)
+                    open(d + '/' + db, 'wb').write(data[:i] + bytes((b'0' if data[i + j:i + j + 1] != b'0' else b'1')[0] for j in range(n_)) + data[i + n_:])
                 extra = ['--no_fast_check']
             if variant == 'pathskip':
                 extra = ['--skip_missing']      # every file is there: the option must change nothing, whatever the state of a path field
-            rc, out = pff([cmd, '-i', inp, '-d', db, '-c', '-o', outd, '-l', 'corr.log'] + extra + ECC[tool], d)
+            rc, out = pff([cmd, '-i', inp, '-d', db, '-c', '-o', outd, '-l', 'corr.log'] + extra + ecc_opts, d)
             if rc != 0:
                 bad.append({'step': 'correct with -l' + (' and -e' if extra else ''), 'exit': rc, 'expected': 0, 'tail': out[-300:]})
             got = read_tree(d + '/' + outd)
@@ -181,11 +220,23 @@ def scenario(name):
             open(d + '/' + reps[0] + '/a.bin', 'wb').write(bytes(b))
             if variant == 'prefill':
                 write_tree(d + '/out', {'a.bin': bytes(b), 'sub/b.txt': b'?' * len(FILES['sub/b.txt'])})
+            want_tree = dict(FILES)
+            if variant == 'grown':
+                # a journal that grew in EVERY replica after the database was written (stale row): the vote still yields the bytes the
+                # replicas agree on, all of them; the stale row makes the status non-zero, it must not shorten the file
+                for k_, r in enumerate(reps):
+                    g = bytearray(FILES['sub/b.txt'] + b'appended later\n' * 20)
+                    g[10 + 50 * k_] ^= 0x20
+                    open(d + '/' + r + '/sub/b.txt', 'wb').write(bytes(g))
+                want_tree['sub/b.txt'] = FILES['sub/b.txt'] + b'appended later\n' * 20
             rc, out = pff(['dup', '-i'] + reps + ['-o', outd, '-d', 'db.csv', '-r', 'rep.csv', '-f', '-l', 'dup.log'], d)
             got = read_tree(d + '/' + outd) if os.path.isdir(d + '/' + outd) else {}
-            if got != FILES:
-                bad.append({'step': 'dup output', 'differing': [k for k in FILES if got.get(k) != FILES[k]]})
-            if rc != 0:
+            if got != want_tree:
+                bad.append({'step': 'dup output', 'differing': [k for k in want_tree if got.get(k) != want_tree[k]]})
+            if variant == 'grown':
+                if rc == 0:
+                    bad.append({'step': 'dup with a stale database row: the output does not match the recorded hashes', 'exit': rc, 'expected': 'non-zero'})
+            elif rc != 0:
                 bad.append({'step': 'dup with database, report and -l: every path restored and hash-correct', 'exit': rc, 'expected': 0, 'tail': out[-300:]})
         elif name.split('-')[0] == 'C15':
             # `pff recc` (alias of recover): every marker of the header ecc file overwritten, index intact -> identical to the pristine file
